@@ -360,3 +360,341 @@ theorem stage2_closed (o i : Nat) (mo : List Nat) (ms : List (Nat × Dec)) (thr 
   · exact ⟨h0, rfl, by show f1.uq.drop 1 = t; rw [huq]; rfl, rfl, rfl, rfl, rfl⟩
 
 end Sge.Core
+
+namespace Sge.Core
+open Sge Sge.Genesis
+
+-- ---------------------------------------------------------------------------------------------
+-- stage 3: write-back
+
+/-- writing the in-memory participation and exposure of `i` back re-establishes the store invariant -/
+theorem writeback_spec (o i : Nat) (B2 : Book) (uq2 : List Nat) (p2 p : Part) (e e2 : PExp)
+    (hS : SInv B2 (fun j => j ≠ i)) (hR : RndAt B2 i) (hQ : QV B2 (qvOf B2 o uq2))
+    (hst : B2.getExp o i = some e) (hp : B2.getPart i = some p)
+    (he2 : e2.odds = o ∧ e2.idx = i ∧ e2.round = e.round)
+    (hnf : (p2.notFilled : Int) = sumBy (unfAt i) B2.pexps - unfAt i e + unfAt i e2)
+    (hcl : e2.fulfilled = true → i ∉ uq2) (hpi : p2.idx = i) :
+    SInv ((B2.setExp e2).setPart p2) (fun _ => True) ∧
+    QV ((B2.setExp e2).setPart p2) (qvOf ((B2.setExp e2).setPart p2) o uq2) := by
+  have h0 : B2.getExp e2.odds e2.idx = some e := by rw [he2.1, he2.2.1]; exact hst
+  have S1 : SInv (B2.setExp e2) (fun j => j ≠ i) :=
+    SInv.setExp hS e2 e h0 he2.2.2 (fun j hj => ⟨hj, fun c => absurd (c.trans he2.2.1) hj⟩)
+  have R1 : RndAt (B2.setExp e2) i := RndAt.setExp hR hS.sE e2 e h0 he2.2.2
+  have hsum : sumBy (unfAt i) (B2.setExp e2).pexps = sumBy (unfAt i) B2.pexps - unfAt i e + unfAt i e2 := by
+    show sumBy (unfAt i) (upsert PExp.key e2 B2.pexps) = _
+    rw [sumBy_upsert PExp.key _ _ B2.pexps hS.sE]
+    have : lookup PExp.key (PExp.key e2) B2.pexps = some e := h0
+    rw [this]
+  constructor
+  · apply SInv.setPart S1 p2 p (by rw [hpi]; exact hp)
+    · intro j _
+      refine ⟨fun hj => ?_, fun hj => by rw [hpi] at hj; exact hj⟩
+      rw [hj, hpi, hsum]; exact hnf
+    · intro j _ hj
+      rw [hj, hpi]; exact R1
+  · apply QV.mono hQ (show ((B2.setExp e2).setPart p2).partCount = B2.partCount from rfl)
+    intro o'' q' hq'
+    have hq0 : qvOf B2 o uq2 o'' = some q' := hq'
+    refine ⟨(hQ o'' q' hq0).1, fun j hj => Or.inl ⟨q', hq0, hj, ?_⟩⟩
+    intro hu
+    by_cases hc : e2.odds = o'' ∧ e2.idx = j
+    · have ho : o'' = o := hc.1.symm.trans he2.1
+      have hji : j = i := hc.2.symm.trans he2.2.1
+      have hq2 : q' = uq2 := by
+        unfold qvOf at hq0
+        simp only [ho, if_true, Option.some.injEq] at hq0
+        exact hq0.symm
+      have hf : e2.fulfilled = false := by
+        cases hh : e2.fulfilled
+        · rfl
+        · exact absurd (by rw [← hq2, ← hji]; exact hj) (hcl hh)
+      refine ⟨e2, ?_, hf⟩
+      show (B2.setExp e2).getExp o'' j = some e2
+      rw [← hc.1, ← hc.2]; exact Book.getExp_setExp_self _ _
+    · exact Book.unf_setExp_ne hc hu
+
+-- ---------------------------------------------------------------------------------------------
+-- re-queue: move the exposures of the round to history, open the next round
+
+/-- the exposure of the next round -/
+def nextExp (pe : PExp) : PExp :=
+  { odds := pe.odds, idx := pe.idx, exposure := 0, bet := 0, fulfilled := false, round := pe.round + 1 }
+
+theorem rollOne_book (o idx : Nat) (acc : Book × PExp × List (Nat × Part × PExp)) (pe : PExp) (hs : Sorted PExp.key acc.1.pexps) :
+    (rollOne true o idx acc pe).1.pexps = upsert PExp.key (nextExp pe) acc.1.pexps ∧
+    (rollOne true o idx acc pe).1.hist = upsert PExp.hkey pe acc.1.hist ∧
+    (rollOne true o idx acc pe).1.parts = acc.1.parts ∧ (rollOne true o idx acc pe).1.queues = acc.1.queues ∧
+    (rollOne true o idx acc pe).1.partCount = acc.1.partCount ∧ (rollOne true o idx acc pe).1.oddsCount = acc.1.oddsCount ∧
+    (rollOne true o idx acc pe).1.uid = acc.1.uid := by
+  have hp : (rollOne true o idx acc pe).1.pexps = upsert PExp.key (nextExp pe) (remove PExp.key [pe.odds, pe.idx] acc.1.pexps) := by
+    unfold rollOne
+    simp only [if_true]
+    split <;> rfl
+  have hrest : (rollOne true o idx acc pe).1.hist = upsert PExp.hkey pe acc.1.hist ∧
+      (rollOne true o idx acc pe).1.parts = acc.1.parts ∧ (rollOne true o idx acc pe).1.queues = acc.1.queues ∧
+      (rollOne true o idx acc pe).1.partCount = acc.1.partCount ∧ (rollOne true o idx acc pe).1.oddsCount = acc.1.oddsCount ∧
+      (rollOne true o idx acc pe).1.uid = acc.1.uid := by
+    unfold rollOne
+    simp only [if_true]
+    split <;> exact ⟨rfl, rfl, rfl, rfl, rfl, rfl⟩
+  refine ⟨?_, hrest⟩
+  rw [hp]
+  exact upsert_remove PExp.key (nextExp pe) acc.1.pexps hs
+
+
+/-- invariant of the loop that rolls the exposures of participation `i` (all in round `r`) into history:
+    `L2` are the exposures still to roll, `B` the book when the loop started -/
+structure RollInv (i r : Nat) (B : Book) (L2 : List PExp) (b : Book) : Prop where
+  parts : b.parts = B.parts
+  queues : b.queues = B.queues
+  pc : b.partCount = B.partCount
+  oc : b.oddsCount = B.oddsCount
+  uid : b.uid = B.uid
+  sE : Sorted PExp.key b.pexps
+  sH : Sorted PExp.hkey b.hist
+  pend : ∀ pe ∈ L2, b.getExp pe.odds pe.idx = some pe ∧ pe.idx = i ∧ pe.round = r
+  dist : L2.Pairwise (fun a c => a.odds ≠ c.odds)
+  hI : ∀ h ∈ b.hist, h.idx = i → h.round < r ∨ (h.round = r ∧ ∀ pe ∈ L2, pe.odds ≠ h.odds)
+  eI : ∀ e ∈ b.pexps, e.idx = i → e ∈ L2 ∨ (e.round = r + 1 ∧ e.fulfilled = false)
+  eKey : ∀ e ∈ b.pexps, 1 ≤ e.idx ∧ e.idx ≤ b.partCount
+  hKey : ∀ h ∈ b.hist, h.idx ≤ b.partCount
+  ge : ∀ o' j, j ≠ i → b.getExp o' j = B.getExp o' j
+  geI : ∀ o', (b.getExp o' i).isSome = (B.getExp o' i).isSome
+  cnt : ∀ j, sumBy (cntAt j) b.pexps = sumBy (cntAt j) B.pexps
+  unfJ : ∀ j, j ≠ i → sumBy (unfAt j) b.pexps = sumBy (unfAt j) B.pexps
+  rndJ : ∀ j, j ≠ i → RndAt B j → RndAt b j
+  tE : ∀ o' j, b.totE o' j = B.totE o' j
+  tB : ∀ o' j, b.totB o' j = B.totB o' j
+
+theorem RollInv.step {i r : Nat} {B : Book} {pe : PExp} {L2 : List PExp} {b b' : Book} (h : RollInv i r B (pe :: L2) b)
+    (hpe : b'.pexps = upsert PExp.key (nextExp pe) b.pexps) (hh : b'.hist = upsert PExp.hkey pe b.hist)
+    (hparts : b'.parts = b.parts) (hq : b'.queues = b.queues) (hpc : b'.partCount = b.partCount)
+    (hoc : b'.oddsCount = b.oddsCount) (huid : b'.uid = b.uid) : RollInv i r B L2 b' := by
+  obtain ⟨p1, p2, p3⟩ := h.pend pe (List.mem_cons_self ..)
+  have hdist := h.dist
+  rw [List.pairwise_cons] at hdist
+  have hmem := (Book.getExp_key p1).2.2
+  have hlk : lookup PExp.key (PExp.key (nextExp pe)) b.pexps = some pe := p1
+  -- the history slot of this round is free
+  have hfresh : lookup PExp.hkey (PExp.hkey pe) b.hist = none := by
+    rw [lookup_eq_none_iff]
+    intro y hy hk
+    have hk' : y.odds = pe.odds ∧ y.idx = pe.idx ∧ y.round = pe.round := by simpa [PExp.hkey] using hk
+    rcases h.hI y hy (hk'.2.1.trans p2) with hlt | ⟨_, hne⟩
+    · rw [hk'.2.2, p3] at hlt; omega
+    · exact hne pe (List.mem_cons_self ..) hk'.1.symm
+  have hge' : ∀ o' j, ¬ (pe.odds = o' ∧ pe.idx = j) → b'.getExp o' j = b.getExp o' j := by
+    intro o' j hne
+    unfold Book.getExp; rw [hpe]
+    apply lookup_upsert_ne
+    cases hc : PExp.key (nextExp pe) == [o', j]
+    · rfl
+    · exfalso; apply hne; simpa [PExp.key, nextExp] using hc
+  have hgeS : b'.getExp pe.odds pe.idx = some (nextExp pe) := by
+    unfold Book.getExp; rw [hpe]
+    exact lookup_upsert_self PExp.key (nextExp pe) b.pexps
+  have hmemE : ∀ e, e ∈ b'.pexps ↔ e = nextExp pe ∨ (e ∈ b.pexps ∧ (PExp.key e == PExp.key (nextExp pe)) = false) := by
+    intro e; rw [hpe]; exact mem_upsert_iff PExp.key _ e b.pexps h.sE
+  have hmemH : ∀ y, y ∈ b'.hist ↔ y = pe ∨ (y ∈ b.hist ∧ (PExp.hkey y == PExp.hkey pe) = false) := by
+    intro y; rw [hh]; exact mem_upsert_iff PExp.hkey _ y b.hist h.sH
+  have hsumH : ∀ g : PExp → Int, sumBy g b'.hist = sumBy g b.hist + g pe := by
+    intro g
+    rw [hh, sumBy_upsert PExp.hkey g pe b.hist h.sH, hfresh]; simp
+  refine ⟨hparts.trans h.parts, hq.trans h.queues, hpc.trans h.pc, hoc.trans h.oc, huid.trans h.uid,
+    by rw [hpe]; exact upsert_sorted _ _ _ h.sE, by rw [hh]; exact upsert_sorted _ _ _ h.sH, ?_, hdist.2, ?_, ?_, ?_, ?_, ?_, ?_, ?_, ?_, ?_, ?_, ?_⟩
+  · intro pe' hpe'
+    obtain ⟨a1, a2, a3⟩ := h.pend pe' (List.mem_cons_of_mem _ hpe')
+    refine ⟨?_, a2, a3⟩
+    rw [hge' pe'.odds pe'.idx (fun c => hdist.1 pe' hpe' c.1)]; exact a1
+  · intro y hy hyi
+    rcases (hmemH y).mp hy with rfl | ⟨hy, _⟩
+    · exact Or.inr ⟨p3, fun pe' hpe' => Ne.symm (hdist.1 pe' hpe')⟩
+    · rcases h.hI y hy hyi with hlt | ⟨a1, a2⟩
+      · exact Or.inl hlt
+      · exact Or.inr ⟨a1, fun pe' hpe' => a2 pe' (List.mem_cons_of_mem _ hpe')⟩
+  · intro e he hei
+    rcases (hmemE e).mp he with rfl | ⟨he, hk⟩
+    · exact Or.inr ⟨by show pe.round + 1 = r + 1; rw [p3], rfl⟩
+    · rcases h.eI e he hei with hm | hr
+      · rcases List.mem_cons.mp hm with rfl | hm
+        · simp [PExp.key, nextExp] at hk
+        · exact Or.inl hm
+      · exact Or.inr hr
+  · intro e he
+    rw [hpc]
+    rcases (hmemE e).mp he with rfl | ⟨he, _⟩
+    · exact h.eKey pe hmem
+    · exact h.eKey e he
+  · intro y hy
+    rw [hpc]
+    rcases (hmemH y).mp hy with rfl | ⟨hy, _⟩
+    · exact (h.eKey y hmem).2
+    · exact h.hKey y hy
+  · intro o' j hj
+    rw [hge' o' j (fun c => hj (c.2.symm.trans p2))]; exact h.ge o' j hj
+  · intro o'
+    by_cases ho : pe.odds = o'
+    · rw [← h.geI o', ← ho, ← p2, hgeS, p1]; rfl
+    · rw [hge' o' i (fun c => ho c.1)]; exact h.geI o'
+  · intro j
+    rw [hpe, sumBy_upsert PExp.key _ _ b.pexps h.sE, hlk]
+    simp only
+    have : cntAt j (nextExp pe) = cntAt j pe := rfl
+    rw [this, ← h.cnt j]; omega
+  · intro j hj
+    rw [hpe, sumBy_upsert PExp.key _ _ b.pexps h.sE, hlk]
+    simp only
+    rw [unfAt_ne (show (nextExp pe).idx ≠ j from fun c => hj (c.symm.trans p2)), unfAt_ne (show pe.idx ≠ j from fun c => hj (c.symm.trans p2)),
+      ← h.unfJ j hj]; omega
+  · intro j hj hB
+    obtain ⟨rj, r1, r2⟩ := h.rndJ j hj hB
+    refine ⟨rj, ?_, ?_⟩
+    · intro e he hei
+      rcases (hmemE e).mp he with rfl | ⟨he, _⟩
+      · exact absurd (hei.symm.trans p2) hj
+      · exact r1 e he hei
+    · intro y hy hyi
+      rcases (hmemH y).mp hy with rfl | ⟨hy, _⟩
+      · exact absurd (hyi.symm.trans p2) hj
+      · exact r2 y hy hyi
+  · intro o' j
+    rw [← h.tE o' j]
+    unfold Book.totE
+    rw [hsumH]
+    by_cases hc : pe.odds = o' ∧ pe.idx = j
+    · rw [← hc.1, ← hc.2, hgeS, p1]
+      simp [expAtH, nextExp]
+      omega
+    · rw [hge' o' j hc]
+      have : expAtH o' j pe = 0 := by
+        unfold expAtH
+        have : (pe.odds == o' && pe.idx == j) = false := by
+          cases hb : (pe.odds == o' && pe.idx == j)
+          · rfl
+          · exfalso; apply hc; simpa using hb
+        simp [this]
+      rw [this]; omega
+  · intro o' j
+    rw [← h.tB o' j]
+    unfold Book.totB
+    rw [hsumH]
+    by_cases hc : pe.odds = o' ∧ pe.idx = j
+    · rw [← hc.1, ← hc.2, hgeS, p1]
+      simp [betAtH, nextExp]
+      omega
+    · rw [hge' o' j hc]
+      have : betAtH o' j pe = 0 := by
+        unfold betAtH
+        have : (pe.odds == o' && pe.idx == j) = false := by
+          cases hb : (pe.odds == o' && pe.idx == j)
+          · rfl
+          · exfalso; apply hc; simpa using hb
+        simp [this]
+      rw [this]; omega
+
+
+theorem rollFold_RollInv (o i r : Nat) (B : Book) : ∀ (L : List PExp) (acc : Book × PExp × List (Nat × Part × PExp)),
+    RollInv i r B L acc.1 → RollInv i r B [] (L.foldl (rollOne true o i) acc).1 := by
+  intro L
+  induction L with
+  | nil => intro acc h; exact h
+  | cons pe L ih =>
+    intro acc h
+    simp only [List.foldl_cons]
+    obtain ⟨a1, a2, a3, a4, a5, a6, a7⟩ := rollOne_book o i acc pe h.sE
+    exact ih _ (h.step a1 a2 a3 a4 a5 a6 a7)
+
+theorem find_map_other {β : Type} (fm : List (Nat × β)) (i j : Nat) (g : Nat × β → β) (hj : j ≠ i) :
+    (fm.map (fun x => if x.1 == i then (x.1, g x) else x)).find? (fun x => x.1 == j) = fm.find? (fun x => x.1 == j) := by
+  induction fm with
+  | nil => rfl
+  | cons x xs ih =>
+    simp only [List.map_cons, List.find?]
+    by_cases hx : x.1 = j
+    · have h1 : (x.1 == i) = false := by simpa using fun c => hj (hx.symm.trans c)
+      have h2 : (x.1 == j) = true := by simpa using hx
+      simp only [h1, Bool.false_eq_true, if_false, h2]
+    · have hx' : (x.1 == j) = false := by simpa using hx
+      have : ((if (x.1 == i) = true then (x.1, g x) else x).1 == j) = false := by
+        split <;> exact hx'
+      rw [this, hx']
+      exact ih
+
+theorem rollFold_items (elig : Bool) (o i : Nat) : ∀ (L : List PExp) (acc : Book × PExp × List (Nat × Part × PExp)) (j : Nat), j ≠ i →
+    (L.foldl (rollOne elig o i) acc).2.2.find? (fun x => x.1 == j) = acc.2.2.find? (fun x => x.1 == j) := by
+  intro L
+  induction L with
+  | nil => intro acc j _; rfl
+  | cons pe L ih =>
+    intro acc j hj
+    simp only [List.foldl_cons]
+    rw [ih _ j hj]
+    unfold rollOne
+    simp only
+    split
+    · split
+      · exact find_map_other acc.2.2 i j (fun x => (x.2.1, _)) hj
+      · rfl
+    · rfl
+
+theorem RollInv.init (B : Book) (i : Nat) (hS : SInv B (fun _ => True)) : ∃ r, RollInv i r B (B.expsOfIdx i) B := by
+  obtain ⟨r, r1, r2⟩ := hS.rnd i trivial
+  have hmemL : ∀ pe, pe ∈ B.expsOfIdx i ↔ pe ∈ B.pexps ∧ pe.idx = i := by
+    intro pe
+    unfold Book.expsOfIdx
+    rw [List.mem_filter]
+    simp
+  refine ⟨r, rfl, rfl, rfl, rfl, rfl, hS.sE, hS.sH, ?_, ?_, ?_, ?_, hS.eKey, hS.hKey, fun _ _ _ => rfl, fun _ => rfl,
+    fun _ => rfl, fun _ _ => rfl, fun _ _ h => h, fun _ _ => rfl, fun _ _ => rfl⟩
+  · intro pe hpe
+    obtain ⟨h1, h2⟩ := (hmemL pe).mp hpe
+    exact ⟨Book.mem_getExp hS.sE h1, h2, r1 pe h1 h2⟩
+  · have hs := hS.sE
+    unfold Sorted at hs
+    have hf : (B.expsOfIdx i).Pairwise (fun a c => ltL (PExp.key a) (PExp.key c) = true) := by
+      unfold Book.expsOfIdx
+      exact List.Pairwise.filter _ hs
+    refine List.Pairwise.imp_of_mem ?_ hf
+    intro a c ha hc hlt e
+    have ha2 := ((hmemL a).mp ha).2
+    have hc2 := ((hmemL c).mp hc).2
+    have : PExp.key a = PExp.key c := by simp [PExp.key, e, ha2, hc2]
+    rw [this, ltL_irrefl] at hlt
+    cases hlt
+  · intro y hy hyi
+    exact Or.inl (r2 y hy hyi)
+  · intro e he hei
+    exact Or.inl ((hmemL e).mpr ⟨he, hei⟩)
+
+/-- when the loop is done all exposures of `i` are open and in round `r + 1` -/
+theorem RollInv.done {i r : Nat} {B b : Book} (h : RollInv i r B [] b) :
+    RndAt b i ∧ sumBy (unfAt i) b.pexps = sumBy (cntAt i) b.pexps ∧ (∀ o', (b.getExp o' i).isSome → b.unf o' i) := by
+  have hall : ∀ e ∈ b.pexps, e.idx = i → e.round = r + 1 ∧ e.fulfilled = false := by
+    intro e he hei
+    rcases h.eI e he hei with hm | hr
+    · cases hm
+    · exact hr
+  refine ⟨⟨r + 1, fun e he hei => (hall e he hei).1, ?_⟩, ?_, ?_⟩
+  · intro y hy hyi
+    rcases h.hI y hy hyi with hlt | ⟨he, _⟩
+    · omega
+    · omega
+  · apply sumBy_congr
+    intro e he
+    by_cases hei : e.idx = i
+    · rw [unfAt_eq hei, cntAt_eq hei, (hall e he hei).2]; rfl
+    · rw [unfAt_ne hei, cntAt_ne hei]
+  · intro o' hs
+    cases hg : b.getExp o' i with
+    | none => rw [hg] at hs; cases hs
+    | some e =>
+      obtain ⟨_, k2, k3⟩ := Book.getExp_key hg
+      exact ⟨e, hg, (hall e k3 k2).2⟩
+
+theorem Book.totE_congr {b b' : Book} (he : b'.pexps = b.pexps) (hh : b'.hist = b.hist) (o i : Nat) :
+    b'.totE o i = b.totE o i ∧ b'.totB o i = b.totB o i := by
+  unfold Book.totE Book.totB Book.getExp
+  rw [he, hh]
+  exact ⟨rfl, rfl⟩
+
+end Sge.Core
